@@ -374,6 +374,7 @@ fn is_supported_function_name(name: &str) -> bool {
             | "__distinct"
             | "__reduce"
             | "__nervus_singleton_path"
+            | "__nervus_paths_edge_disjoint"
     )
 }
 
